@@ -191,20 +191,50 @@ func contractMayRetain(con *Contract) bool {
 	if con.Pure {
 		return false
 	}
-	if !con.HasMod {
+	return true
+}
+
+// typeHoldsRef: can a value of this type contain a reference to a heap object?
+func typeHoldsRef(t types.Type) bool {
+	if t == nil {
 		return true
 	}
-	for _, m := range con.Modifies {
-		ce, ok := m.Expr.(*ast.CallExpr)
-		if !ok {
-			return true
+	if t == mathInt || isBigInt(t) {
+		return false
+	}
+	switch u := t.Underlying().(type) {
+	case *types.Basic:
+		return u.Kind() == types.UnsafePointer
+	case *types.Struct:
+		for i := 0; i < u.NumFields(); i++ {
+			if typeHoldsRef(u.Field(i).Type()) {
+				return true
+			}
 		}
-		id, _ := ce.Fun.(*ast.Ident)
-		if id == nil || (id.Name != "val" && id.Name != "gh" && id.Name != "ghall") {
-			return true
+		return false
+	case *types.Array:
+		return typeHoldsRef(u.Elem())
+	}
+	return true
+}
+
+func locHoldsRef(l Loc) bool {
+	switch l.kind {
+	case "field", "cell", "obj":
+		return typeHoldsRef(l.t)
+	case "elems":
+		if sl, ok := l.sl.T.Underlying().(*types.Slice); ok {
+			return typeHoldsRef(sl.Elem())
+		}
+		return true
+	case "bigval", "ghost", "ghostall":
+		return false
+	case "map":
+		if mt, ok := l.t.Underlying().(*types.Map); ok {
+			return typeHoldsRef(mt.Key()) || typeHoldsRef(mt.Elem())
 		}
 	}
-	return false
+	return true
 }
 
 func topConjuncts(e ast.Expr) []ast.Expr {
@@ -343,6 +373,9 @@ func (x *Exec) keepPrefixes(pkg string, args []ast.Expr) []string {
 			case *types.Map:
 				// every map of this type keeps its entries
 				out = append(out, "MD."+typeName(t), "MV."+typeName(t), "ML."+typeName(t))
+			case *types.Basic:
+				// the cells behind pointers to values of this (underlying) type
+				out = append(out, cellKey(t))
 			default:
 				sfail("modifies allbut: unsupported type %s", exprString(a))
 			}
@@ -462,6 +495,7 @@ func (x *Exec) applyContract(fr *Frame, st *State, in ssa.Instruction, con *Cont
 		lbl = x.label(fr.fn, in, "call")
 	}
 	var res Val
+	retain := true
 	x.withSpecErr(con.Where, func() {
 		names := x.bindArgs(sig, args)
 		env := &SpecEnv{x: x, fr: fr, st: st, old: st, names: names, pkg: con.Pkg, depth: 1}
@@ -495,7 +529,7 @@ func (x *Exec) applyContract(fr *Frame, st *State, in ssa.Instruction, con *Cont
 		// havoc the frame
 		if !con.HasMod && !con.Trusted {
 			x.note("contract without modifies clause: " + key + " (heap havoced at call sites)")
-			x.havocAll(st)
+			x.havocAllCall(st, args)
 		} else {
 			var locs []Loc
 			for _, m := range con.Modifies {
@@ -503,14 +537,30 @@ func (x *Exec) applyContract(fr *Frame, st *State, in ssa.Instruction, con *Cont
 			}
 			// the callee may allocate: the new contents of the modified locations are bounded by the allocation watermark AFTER
 			// the call (bounding them by the watermark before it contradicts postconditions such as fresh(x.f))
+			if con.HasMod {
+				// a callee that may only write locations which cannot hold a reference cannot keep one it is handed
+				retain = false
+				for _, l := range locs {
+					if locHoldsRef(l) {
+						retain = true
+					}
+				}
+			}
+			if retain {
+				for _, a := range args {
+					st.markEscaping(flatten(a))
+				}
+			}
 			x.bumpAlloc(st)
+			x.semKeep = true
 			for _, l := range locs {
 				x.havocLoc(st, l)
 			}
+			x.semKeep = false
 		}
 		res = x.freshResult(st, resultType(sig), "res."+sanitize(key))
 		// a pointer handed back by the callee is none of this activation's objects that never left it
-		if contractMayRetain(con) {
+		if retain && contractMayRetain(con) {
 			for _, a := range args {
 				st.markEscaping(flatten(a))
 			}
